@@ -6,9 +6,11 @@ import PandoraModel.Properties.C02
 #print axioms Pandora.C02.costVolume_eq_spec_of_raw
 #print axioms Pandora.C02.rawOK_sad_ssd
 #print axioms Pandora.C02.rawOK_zncc
+#print axioms Pandora.C02.rawOK_census_bits
 #print axioms Pandora.C02.rawOK_census
 #print axioms Pandora.C02.costVolume_eq_spec_sad_ssd
 #print axioms Pandora.C02.costVolume_eq_spec_zncc
-#print axioms Pandora.C02.costVolume_eq_spec_census_partial
+#print axioms Pandora.C02.costVolume_eq_spec_census
+#print axioms Pandora.C02.popcount_correct
 #print axioms Pandora.C02.nan_iff_not_computable
-#print axioms Pandora.C02.popcount_9bit
+#print axioms Pandora.C02.costVolume_eq_spec
